@@ -82,6 +82,30 @@ PROPS = {
         ],
         'technique': 'seeded call-schedule simulation of a stateful streaming API against a sort+unique reference model (daemon-driven schedules of the same streams are covered by C04/C12)',
     },
+    'C13': {
+        'engine': 'simx', 'profile': 'C13', 'level': 'exploration',
+        'rules': ['R-ONCEX', 'R-RUNSPEC', 'R-ROUTE', 'R-MAIL', 'R-JOURNAL', 'R-CRASHFREE'],
+        'gopts': {}, 'mopts': {},
+        'quick': {'budget': 50, 'runs': 100000}, 'thorough': {'budget': 600, 'runs': 10000000},
+        'assumptions': [
+            'the job is a scripted actor writing position-coded bytes to the descriptors echsx planned for it (real pipes and files), not a real shell; /usr/sbin/sendmail is a recorder',
+            'setuid/setgid, getrusage, the clock and alarm() are simulated; descriptor plumbing, splice(2), sendfile(2), file locks and temporary files are real kernel calls',
+            'when the stdout and stderr patterns share a file their newlines cannot be told apart; the check is order-preserving-merge plus exact lengths',
+        ],
+        'technique': 'deterministic simulation of the executor: real echsx.c under a virtual-time libev model with a scripted job actor, seeded schedules of job steps vs event-loop polls, injected short transfers / delayed exit notification / spawn and open failures',
+    },
+    'C14': {
+        'engine': 'chain', 'profile': 'C14', 'level': 'exploration',
+        'rules': ['R-DEADLINE', 'R-CRASHFREE'],
+        'gopts': {}, 'mopts': {},
+        'quick': {'budget': 45, 'runs': 100000}, 'thorough': {'budget': 600, 'runs': 10000000},
+        'assumptions': [
+            'the job is a scripted actor with a virtual lifetime; alarm(), the SIGALRM handler, kill() and the clock are simulated, so "killed" means the registered handler signalled the job\'s pid at that virtual time',
+            'limits are whole seconds from 1 s to 2 weeks in the spellings PTnS, PTnMnS, PTnHnMnS, PnD, PnDTnH, PnW, +PTnS and as DTEND; DUE is exercised at the executor only (the daemon never writes DUE)',
+            'scheduling jitter allowance: 1.5 s around the limit, plus any stall the plan injects between arming the alarm and spawning the job',
+        ],
+        'technique': 'deterministic simulation chained over two engines: simd (real echsq bytes -> real echsd) hands the captured execution request to simx (real echsx) on a virtual alarm clock',
+    },
     'C10': {
         'engine': 'simp', 'profile': 'C10', 'level': 'exploration',
         'rules': ['R-CHUNK', 'R-CRASHFREE'],
@@ -149,7 +173,7 @@ def relevant(v, cfg):
 def replay_file(path, quiet=False):
     """replay a plan file; returns (reproduced, violations)"""
     doc = json.load(open(path))
-    if doc.get('engine') == 'simp':
+    if doc.get('engine') in ('simp', 'simx', 'chain'):
         return replay_simp(doc, path, quiet)
     plan = doc['plan']
     prop = doc.get('property', plan.get('property'))
@@ -176,6 +200,12 @@ def simp_module(doc):
     if doc.get('kind') == 'c03':
         from . import c03
         return c03
+    if doc.get('kind') == 'c13':
+        from . import c13
+        return c13
+    if doc.get('kind') == 'c14':
+        from . import c14
+        return c14
     from . import c10
     return c10
 
@@ -299,8 +329,8 @@ def run_check(prop, tier, budget=None, runs=None, seed=None, workers=None, no_mi
             nontrivial.add(res.get('plan_hash'))
         if len(samples) < 3 and st.get('spawns', 0) > 0:
             samples.append(res['seed'])
-        if cfg['engine'] == 'simp':
-            if res.get('nops', 0) > 1 and res.get('probes'):
+        if cfg['engine'] in ('simp', 'simx', 'chain'):
+            if res.get('nops', 0) > 1 and (res.get('probes') or cfg['engine'] != 'simp'):
                 nontrivial.add(res.get('plan_hash'))
             if len(simp_samples) < 3 and res.get('sample'):
                 simp_samples.append(res['sample'])
@@ -316,10 +346,10 @@ def run_check(prop, tier, budget=None, runs=None, seed=None, workers=None, no_mi
     rc = 0
     out_viol = []
     for s, (sd, v) in sorted(viols.items()):
-        if cfg['engine'] == 'simp':
-            doc = {'property': prop, 'engine': 'simp', 'kind': cfg['profile'].lower(), 'expect': s,
+        if cfg['engine'] in ('simp', 'simx', 'chain'):
+            doc = {'property': prop, 'engine': cfg['engine'], 'kind': cfg['profile'].lower(), 'expect': s,
                    'detail': v['detail'], 'tag': 'seed=%d' % sd}
-            for k in ('input', 'loop', 'mode', 'sizes', 'sched', 'expected'):
+            for k in ('input', 'loop', 'mode', 'sizes', 'sched', 'expected', 'case'):
                 if k in v:
                     doc[k] = v[k]
             mod = simp_module(doc)
@@ -383,7 +413,7 @@ def run_check(prop, tier, budget=None, runs=None, seed=None, workers=None, no_mi
 
     # 4. evidence
     wall = time.time() - t0
-    if cfg['engine'] == 'simp':
+    if cfg['engine'] in ('simp', 'simx', 'chain'):
         sample_plans = simp_samples
     else:
         sample_plans = [gen.gen(cfg['profile'], sd, tier, cfg.get('gopts')) for sd in samples[:2]]
@@ -419,6 +449,28 @@ def run_check(prop, tier, budget=None, runs=None, seed=None, workers=None, no_mi
         'wall_s': round(wall, 2),
         'violations': len(out_viol),
     }
+    if prop == 'C14':
+        ev['coverage']['rule'] = (
+            'one evaluation = one limit (1 s .. 2 weeks) in one spelling along the whole path user file -> echsq -> echsd -> echsx '
+            '(or a DUE / well-formed DURATION request fed to echsx directly) with one job lifetime (well below, just below, just above, far beyond the limit); '
+            'non-trivial = all of them (each runs the daemon and the executor); distinct = by hash of the case')
+        ev['coverage']['real_vs_stub'] = {
+            'echsq.c, echsd.c, echsx.c, libechse': 'real, unmodified', 'libev': 'model (virtual time)',
+            'job': 'stub: scripted actor', 'alarm/SIGALRM/kill/clock': 'stub: virtual'}
+    if prop == 'C13':
+        ev['coverage']['rule'] = (
+            'one evaluation = one execution request for one of the 20 documented routing rows run by the real echsx against a scripted job '
+            '(0-10 write/sleep steps on stdout/stderr from 0 B to 1 MiB, optional early close, exit code or fatal signal), with seeded fault mix; '
+            'non-trivial = the job has at least two steps; distinct = by hash of the case')
+        ev['coverage']['rows_covered'] = sorted(k for k in stats if k.startswith('row_'))
+        ev['coverage']['real_vs_stub'] = {
+            'echsx.c (main, stdin reader, echsx(), prep_task, run_task, data_cb, mail_task, jlog_task)': 'real, unmodified',
+            'libechse parser': 'real',
+            'libev': 'model (virtual time)',
+            'pipes, output files, temp files, journal file, splice, sendfile, fcntl locks': 'real kernel calls inside the run directory',
+            'the job (posix_spawn of the shell)': 'stub: scripted actor on dups of the planned descriptors',
+            'sendmail': 'stub: recorder', 'clock, alarm, kill, setuid/setgid, getrusage': 'stub',
+        }
     if prop == 'C03':
         ev['coverage']['rule'] = (
             'one evaluation = one generated calendar (1-8 events, 0-6 RRULEs and optional RDATE list each, deliberate ties, '
